@@ -287,6 +287,18 @@ def rule_handover(ctx, rep):
             else:
                 rep.must_take_edge("C03.handover", fl + ".never-stops-default", f, [f.entry()], stops, nd, include_start=True,
                                    what="the helper is asked to STOP only after it was found not to be the default helper (a stopped default helper keeps receiving callbacks nobody runs)")
+        # the hand-over needs a default helper to exist: it is created (if need be) before the splice dereferences default_call_rcu_data -
+        # a program that only ever used explicit helpers has none yet
+        gdc = [c_ for c_ in f.calls() if c_.callee == F.pfx + "_get_default_call_rcu_data" or pat.from_fn_opt(c_, F.pfx + "_get_default_call_rcu_data")]
+        sp0 = crdp_queue_splices(f)
+        if sp0:
+            dl = [l for l in pat.loads(f, glob="default_call_rcu_data") if f.reach([l], sp0)[0] is not None or any(f.dominates(l, x) for x in sp0)]
+            gd_any = [i for i in f.all_insts() if (i.op == "call" and i.callee == F.pfx + "_get_default_call_rcu_data") or (i.scope_chain and F.pfx + "_get_default_call_rcu_data" in i.scope_chain)]
+            if not gd_any:
+                rep.bad("C03.handover", fl + ".default-exists≺splice", "_call_rcu_data_free hands leftover callbacks to default_call_rcu_data without making sure it exists (get_default_call_rcu_data()): "
+                        "when only explicit helpers were ever created the splice goes through a NULL pointer", [sp0[0].where()])
+            else:
+                rep.must_pass("C03.handover", fl + ".default-exists≺splice", f, [f.entry()], sp0, lambda i: i in gd_any, include_start=True, what="get_default_call_rcu_data() runs before the hand-over splice")
         # leftover callbacks: spliced to the default helper when non-empty, before free
         if not sp:
             rep.bad("C03.handover", fl + ".splice", "leftover callbacks are not handed over to the default helper (lost when the helper is freed)", [frees[0].where()])
@@ -748,6 +760,11 @@ def rule_helper_loop(ctx, rep):
         F = FL[fl]
         h = ctx.fn(F.lib, "call_rcu_thread")
         wq.worker_rules(rep, "C03.helper", h, None, "call_rcu_data.flags", "call_rcu_data.futex", "call_rcu_data.cbs_head", "call_rcu_data.cbs_tail", "rcu_head.func", FLG.STOP, tag=fl + ".helper")
+        ci = ctx.mod(F.lib, "flat").fn(F.pfx + "_create_call_rcu_data") or ctx.fn(F.lib, F.pfx + "_create_call_rcu_data")
+        if ci is not None and pat.calls_opt(ci, "pthread_create"):
+            wq.creator_inits(rep, "C03.helper", ci, h, "call_rcu_data", "call_rcu_data.cbs_head", "call_rcu_data.cbs_tail", tag=fl + ".create")
+        else:
+            rep.unk("C03.helper", fl + ".create", "the function that creates the helper thread was not found in the flattened create_call_rcu_data")
         # RT polarity: a helper created with the RT flag polls and is never woken (call_rcu skips the wake-up for it), so only a non-RT helper
         # may arm the futex and sleep on it
         rtbits = set()
